@@ -231,3 +231,192 @@ theorem waitfor_acyclic (hirr : ∀ a, lt a a = false)
 
 end generic
 end Eru.Lock
+
+namespace Eru.Lock
+
+/-! ### the modelled helpers produce disciplined traces -/
+
+abbrev R := run keyLt nodeOpRule
+
+theorem keyLt_irrefl (a : Key) : keyLt a a = false := by
+  simp [keyLt, String.lt_irrefl]
+
+theorem keyLt_trans (a b c : Key) (h1 : keyLt a b = true) (h2 : keyLt b c = true) : keyLt a c = true := by
+  simp only [keyLt, Bool.or_eq_true, decide_eq_true_eq, Bool.and_eq_true, beq_iff_eq] at *
+  rcases h1 with h1 | ⟨e1, l1⟩
+  · rcases h2 with h2 | ⟨e2, _⟩
+    · left; omega
+    · left; omega
+  · rcases h2 with h2 | ⟨e2, l2⟩
+    · left; omega
+    · right; exact ⟨e1.trans e2, String.lt_trans l1 l2⟩
+
+theorem run_append {K : Type} [DecidableEq K] (lt : K → K → Bool) (extra : List K → K → Bool)
+    (a b : List (Ev K)) : ∀ (held : List K),
+    run lt extra held (a ++ b) = (run lt extra held a).bind (fun h => run lt extra h b) := by
+  induction a with
+  | nil => intro held; simp [run]
+  | cons e es ih =>
+    intro held
+    simp only [List.cons_append, run]
+    cases stepOK lt extra held e with
+    | none => rfl
+    | some h' => exact ih h'
+
+theorem run_acq_group (g : Nat) : ∀ (names : List String) (held : List Key),
+    names.Pairwise (· < ·) →
+    (∀ h ∈ held, ∀ n ∈ names, keyLt h ⟨g, n⟩ = true) →
+    (g = gNodeOp → ∀ h ∈ held, h.group = gNodeOp) →
+    R held ((names.map (Key.mk g)).map .acq) = some ((names.map (Key.mk g)).reverse ++ held) := by
+  intro names
+  induction names with
+  | nil => intro held _ _ _; simp [R, run]
+  | cons n ns ih =>
+    intro held hp hlt hop
+    have p := List.pairwise_cons.mp hp
+    have c1 : (held.all fun h => keyLt h ⟨g, n⟩) = true := by
+      simp only [List.all_eq_true]; intro h hh; exact hlt h hh n List.mem_cons_self
+    have c2 : nodeOpRule held ⟨g, n⟩ = true := by
+      simp only [nodeOpRule, Bool.or_eq_true, bne_iff_ne, ne_eq, List.all_eq_true, beq_iff_eq]
+      by_cases hg : g = gNodeOp
+      · right; exact hop hg
+      · left; exact hg
+    simp only [R, List.map_cons, run, stepOK, c1, c2, Bool.and_self, if_true]
+    have := ih (⟨g, n⟩ :: held) p.2
+      (by
+        intro h hh n' hn'
+        rcases List.mem_cons.mp hh with e | hh'
+        · subst e; simp [keyLt, p.1 n' hn']
+        · exact hlt h hh' n' (List.mem_cons_of_mem _ hn'))
+      (by
+        intro hg h hh
+        rcases List.mem_cons.mp hh with e | hh'
+        · subst e; exact hg
+        · exact hop hg h hh')
+    simp only [R] at this
+    rw [this]
+    simp
+
+theorem run_rel_all : ∀ (ks held : List Key), R (ks ++ held) (ks.map .rel) = some held := by
+  intro ks
+  induction ks with
+  | nil => intro held; simp [R, run]
+  | cons k ks ih =>
+    intro held
+    simp only [R, List.map_cons, run, stepOK, List.cons_append, List.mem_cons, true_or, if_true,
+      List.erase_cons_head]
+    exact ih held
+
+/-- a bracket `acq keys…; body; rel keys…` of one group keeps the held set, when the keys are
+    strictly ascending, above everything held, and the body keeps the held set -/
+theorem bracket_ok (g : Nat) (names : List String) (held : List Key) (body : Trace)
+    (hp : names.Pairwise (· < ·))
+    (hlt : ∀ h ∈ held, ∀ n ∈ names, keyLt h ⟨g, n⟩ = true)
+    (hop : g = gNodeOp → ∀ h ∈ held, h.group = gNodeOp)
+    (hbody : R ((names.map (Key.mk g)).reverse ++ held) body = some ((names.map (Key.mk g)).reverse ++ held)) :
+    R held ((names.map (Key.mk g)).map .acq ++ body ++ (names.map (Key.mk g)).reverse.map .rel) = some held := by
+  simp only [R, run_append, List.append_assoc]
+  have h1 := run_acq_group g names held hp hlt hop
+  simp only [R] at h1 hbody
+  rw [h1]
+  simp only [Option.bind_some, hbody]
+  exact run_rel_all _ held
+
+theorem getWorkloads_ids {w : World} : ∀ {ids : List String} {cs : List (String × String)},
+    getWorkloads w ids = some cs → cs.map (·.1) = ids := by
+  intro ids
+  induction ids with
+  | nil => intro cs h; simp [getWorkloads] at h; subst h; rfl
+  | cons a rest ih =>
+    intro cs h
+    simp only [getWorkloads, List.mapM_cons, Option.bind_eq_bind, Option.pure_def] at h
+    cases hf : w.workloads.find? (·.1 == a) with
+    | none => simp [hf] at h
+    | some c =>
+      simp only [hf, Option.bind_some] at h
+      cases hr : rest.mapM (fun id => w.workloads.find? (·.1 == id)) with
+      | none => simp [hr] at h
+      | some cs' =>
+        simp only [hr, Option.bind_some, Option.some.injEq] at h
+        subst h
+        have h1 : c.1 = a := by simpa using List.find?_some hf
+        simp only [List.map_cons, h1]
+        congr 1
+        exact ih (by simpa [getWorkloads] using hr)
+
+/-- `withWorkloadsLocked` (no nested locking in its callback) keeps a held set made of pod locks -/
+theorem workloads_ok (w : World) (ig : Bool) (ids : List String) (held : List Key)
+    (hh : ∀ h ∈ held, h.group = gPod) : R held (withWorkloadsLocked w ig ids []) = some held := by
+  unfold withWorkloadsLocked
+  simp only []
+  cases hg : getWorkloads w (sortUnique ids) with
+  | none => simp [R, run]
+  | some cs =>
+    simp only []
+    cases ig with
+    | true => simp [R, run]
+    | false =>
+      simp only [Bool.false_eq_true, if_false]
+      have hn := getWorkloads_ids hg
+      have hk : (cs.map fun c => Key.mk gWorkload c.1) = (sortUnique ids).map (Key.mk gWorkload) := by
+        rw [← hn, List.map_map]; rfl
+      rw [hk]
+      apply bracket_ok gWorkload (sortUnique ids) held [] (sortUnique_strict ids)
+      · intro h hm n _; simp [keyLt, hh h hm, gPod, gWorkload]
+      · intro e; simp [gWorkload, gNodeOp] at e
+      · simp [R, run]
+
+theorem workloadEach_ok (w : World) (wids : List String) (held : List Key)
+    (hh : ∀ h ∈ held, h.group = gPod) :
+    R held (wids.flatMap fun id => withWorkloadLocked w id false) = some held := by
+  induction wids with
+  | nil => simp [R, run]
+  | cons a rest ih =>
+    simp only [List.flatMap_cons, R, run_append]
+    have := workloads_ok w false [a] held hh
+    simp only [R] at this ih
+    simp only [withWorkloadLocked, this, Option.bind_some]
+    exact ih
+
+/-- `withNodesLocked` with a held-set-preserving callback is a disciplined episode -/
+theorem nodesLocked_ok (g : Nat) (genName : Node → String) (w : World) (nf : NodeFilter)
+    (body : List Node → Trace)
+    (hbody : ∀ ns (H : List Key), (∀ h ∈ H, h.group = g) → R H (body ns) = some H) :
+    R [] (withNodesLocked g genName w nf body) = some [] := by
+  unfold withNodesLocked
+  cases filterNodes w.nodes nf with
+  | ok ns =>
+    simp only []
+    apply bracket_ok g _ [] (body ns) (sortUnique_strict _)
+    · intro h hm; cases hm
+    · intro _ h hm; cases hm
+    · apply hbody
+      intro h hm
+      simp only [List.append_nil, List.mem_reverse, List.mem_map] at hm
+      obtain ⟨n, _, e⟩ := hm
+      rw [← e]
+  | err e => simp [R, run]
+  | panic m => simp [R, run]
+  | diverge => simp [R, run]
+
+theorem nodePodLocked_ok (w : World) (node : String) (body : Trace)
+    (hbody : ∀ (H : List Key), (∀ h ∈ H, h.group = gPod) → R H body = some H) :
+    R [] (withNodePodLocked w node body) = some [] := by
+  unfold withNodePodLocked withNodesPodLocked
+  apply nodesLocked_ok
+  intro ns H hH
+  split
+  · exact hbody H hH
+  · simp [R, run]
+
+theorem nodeOpLocked_ok (w : World) (node : String) :
+    R [] (withNodeOperationLocked w node []) = some [] := by
+  unfold withNodeOperationLocked withNodesOperationLocked
+  apply nodesLocked_ok
+  intro ns H _
+  split <;> simp [R, run]
+
+theorem traceOK_iff (t : Trace) : traceOK t = true ↔ R [] t = some [] := by
+  simp [traceOK, wellOrdered, R]
+
+end Eru.Lock
